@@ -349,7 +349,25 @@ func (r *TypeSettingsRegistry) GetByValue(objValue reflect.Value, optTS ...TypeS
 
 		// resolve indirections
 		switch objValue.Kind() {
-		case reflect.Ptr, reflect.Interface:
+		case reflect.Ptr:
+			if objValue.IsNil() {
+				// a nil pointer (e.g. a fresh decode destination) has no element to look at:
+				// continue the lookup with the zero value of the pointed-to type
+				objValue = reflect.Zero(objValue.Type().Elem())
+
+				continue
+			}
+			objValue = objValue.Elem()
+
+		case reflect.Interface:
+			if objValue.IsNil() {
+				// a nil interface carries no concrete type to look up
+				if len(optTS) > 0 {
+					return optTS[0]
+				}
+
+				return TypeSettings{}
+			}
 			objValue = objValue.Elem()
 
 		default:
